@@ -8,10 +8,10 @@ def run(ctx):
     ctx.forbidden_scan(["AvoVerif.Audit.C03", "AvoVerif.Drv.C01", "drivers.DrvC01"])
     if not ctx.build_driver("drv_c01"):
         return
-    if ctx.lake_each(["AvoVerif.Props.C03"]):
+    if ctx.lake_each(["AvoVerif.Props.C03", "AvoVerif.Props.C03Pipeline"]):
         ctx.audit("C03")
     if ctx.tier == "thorough":
-        ctx.leanchecker(["AvoVerif.Props.C03"])
+        ctx.leanchecker(["AvoVerif.Props.C03", "AvoVerif.Props.C03Pipeline"])
     nt = lambda req, resp: req.startswith("accept-bind") and not req.endswith("=> 0")
     n = 2500 if ctx.tier == "quick" else 60000
     ctx.differential("c01", n, nontrivial=nt, driver="drv_c01")
